@@ -1,28 +1,7 @@
 //@unit line_map
 // L8: code/utils/line_map.rs
 
-/// byte offsets of the line breaks among the first n characters
-pub open spec fn lf_positions(c: Seq<char>, n: int) -> Seq<usize>
-    decreases n,
-{
-    if n <= 0 { Seq::empty() } else {
-        lf_positions(c, n - 1) + (if c[n - 1] == '\n' { seq![char_byte_pos(c, n - 1) as usize] } else { Seq::empty() })
-    }
-}
-/// i is the first index whose entry is greater than needle
-pub open spec fn first_gt(m: Seq<usize>, needle: usize, i: int) -> bool {
-    &&& 0 <= i < m.len() && m[i] > needle
-    &&& forall|k: int| 0 <= k < i ==> (#[trigger] m[k]) <= needle
-}
-pub open spec fn find_line_spec(m: Seq<usize>, needle: usize) -> int {
-    if exists|i: int| first_gt(m, needle, i) { (choose|i: int| first_gt(m, needle, i)) + 1 } else { m.len() as int + 1 }
-}
-pub proof fn lemma_first_gt_unique(m: Seq<usize>, needle: usize, i: int, j: int)
-    requires first_gt(m, needle, i), first_gt(m, needle, j),
-    ensures i == j,
-{
-    if i < j { assert(m[i] <= needle); } else if j < i { assert(m[j] <= needle); }
-}
+//@include line_map_vocab.vs
 
 //@fn id=build_line_map file=code/utils/line_map.rs name=build_line_map props=C01,C15
 //@ret r
